@@ -25,4 +25,5 @@ CONF = dict(
                 'covered by C09/C13. No axioms.'),
     explanation='oracle clauses: reply carries the receive stamp, fresh for the client; basic/interleaved shape; interleaved iff own record with that receive stamp and rx != tx; served transmit stamp later than its receive stamp; reported transmit time recorded, unread one dropped',
     timeout_quick=900, timeout_thorough=3000,
+    min_cases={'tss.flood': 1, 'tss.hist': 210, 'tss.lockdiscipline': 1},
 )
